@@ -950,6 +950,15 @@ NoAvoidableMateAllowed ==
    (done /\ Aborts = 0 /\ D \in 2..3 /\ M1 = {} /\ (\E c \in RootMoves : ~AllowsM1(c))
          /\ ~\E c \in RootMoves : AllowsM1(c) /\ RepDraw(RepStack, c)) => ~AllowsM1(bestMove)
 
+\* Liveness (C03 / C07 at the design level): under weak fairness of the searcher's steps every go is eventually
+\* answered - each search, interrupted or not, returns - whatever the clock process does.  (Checked with
+\* SPECIFICATION FairSpec and no state constraint; mc/Search_live.cfg.)
+SearcherStep == searcher \/ quiesce("s") \/ negamax("s") \/ find_best_move("s")
+FairSpec == Spec /\ WF_vars(SearcherStep)
+EveryGoAnswered == <>done
+\* ... and an armed search whose clock has expired is over after finitely many further steps
+ExpiredSearchEnds == [](expired => <>(~armed))
+
 \* observation for the interruption-point argument (printed once per finished behaviour of round 1)
 FirstTruePolls == (pc["s"] = "s1" /\ round = 0) => PrintT(<<"FTP", firstTrue>>)
 =============================================================================
